@@ -37,8 +37,10 @@ def meth_coq(m):
 # correspondence: geometry
 # ---------------------------------------------------------------------------
 
-def run_distr(h, w, o, rm, order, odd, meth, sin, W=None, IM=None):
-    """('Ok', d, res) | ('ValueError',) | ('Exc', name, message)."""
+def run_distr(h, w, o, rm, order, odd, meth, sin, W=None, IM=None, prime=None):
+    """('Ok', d, res) | ('ValueError',) | ('Exc', name, message).
+    prime: shape of an image analysed first with the same object (object reuse:
+    _precalc is re-run when an object without weights meets another shape)."""
     from abel.tools.vmi import Distributions
     if IM is None:
         IM = np.ones((h, w))
@@ -46,6 +48,11 @@ def run_distr(h, w, o, rm, order, odd, meth, sin, W=None, IM=None):
         with warnings.catch_warnings(), np.errstate(all='ignore'):
             warnings.simplefilter('ignore')
             d = Distributions(origin=o, rmax=rm, order=order, odd=odd, use_sin=sin, method=meth, weights=W)
+            if prime is not None and W is None:
+                try:
+                    d(np.ones(prime))
+                except Exception:      # noqa  (e.g. the origin is outside the first image)
+                    pass
             res = d(IM)
         return ('Ok', d, res)
     except ValueError:
@@ -131,8 +138,12 @@ def correspondence_geom(ctx, rng, exc_hits):
     cases = gen_geom_cases(ctx, rng)
     kept, texts_c, dist = [], [], {}
     for c in cases:
-        out = run_distr(*c)
-        key = '%s/%s' % ('string' if isinstance(c[2], str) else 'tuple', out[0])
+        # a third of the objects have analysed an image of another (or the same) shape before
+        prime = None
+        if rng.random() < 0.33:
+            prime = (int(rng.integers(3, 12)), int(rng.integers(3, 12))) if rng.random() < 0.8 else (c[0], c[1])
+        out = run_distr(*c, prime=prime)
+        key = '%s/%s%s' % ('string' if isinstance(c[2], str) else 'tuple', out[0], '/reused-object' if prime else '')
         dist[key] = dist.get(key, 0) + 1
         if out[0] == 'Exc':
             exc_hits.append((c, out))
@@ -195,7 +206,10 @@ def correspondence_values(ctx, rng, exc_hits):
     cases = gen_value_cases(ctx, rng)
     kept, texts_c = [], []
     for c in cases:
-        out = run_distr(*c[:8], W=c[8], IM=c[9])
+        prime = None
+        if c[8] is None and rng.random() < 0.5:
+            prime = (int(rng.integers(3, 12)), int(rng.integers(3, 12)))
+        out = run_distr(*c[:8], W=c[8], IM=c[9], prime=prime)
         if out[0] == 'Exc':
             exc_hits.append((c[:8], out))
             continue
@@ -397,6 +411,216 @@ def search_model(ctx, rng, budget):
     return hits, n_eval, len(distinct), n_radii, samples
 
 
+SNIPPET_REUSE = '''
+import json, sys, warnings
+import numpy as np
+warnings.simplefilter('ignore')
+from abel.tools.vmi import Distributions
+p = json.loads(%(params)r)
+origin = tuple(p['origin']) if isinstance(p['origin'], list) else p['origin']
+W = None if p['W'] is None else np.array(p['W'])
+kw = dict(origin=origin, rmax=p['rmax'], order=p['order'], odd=p['odd'], use_sin=p['use_sin'], method=p['method'], weights=W)
+d = Distributions(**kw)
+ok = True
+for k, im in enumerate(p['images']):
+    IM = np.array(im)
+    try:
+        got = d(IM).cos()
+    except Exception as e:
+        got = type(e).__name__
+    try:
+        ref = Distributions(**kw)(IM).cos()
+    except Exception as e:
+        ref = type(e).__name__
+    same = (got == ref) if isinstance(got, str) or isinstance(ref, str) else (
+        got.shape == ref.shape and np.allclose(got, ref, rtol=1e-10, atol=1e-10, equal_nan=True))
+    print('image', k, 'shape', IM.shape, 'reused object == fresh object:', bool(same))
+    ok = ok and bool(same)
+print('C14 object reuse', 'holds' if ok else 'FAILS', {k: p[k] for k in ('origin', 'rmax', 'order', 'odd', 'use_sin', 'method')})
+sys.exit(0 if ok else 1)
+'''
+
+
+def search_reuse(ctx, rng, budget):
+    """One Distributions object analysing several images (same and different
+    shapes): every result must equal that of a fresh object, and the exact
+    model coefficients at well-conditioned radii."""
+    from abel.tools.vmi import Distributions
+    hits, n_eval, distinct = [], 0, set()
+    for it in range(budget):
+        meth = ['nearest', 'linear', 'remap'][rng.integers(3)] if rng.random() < 0.4 else ['nearest', 'linear'][rng.integers(2)]
+        lo = 12 if meth == 'remap' else 4
+        nshape = int(rng.integers(2, 4))
+        shapes = [tuple(int(v) for v in rng.integers(lo, lo + 14, 2)) for _ in range(nshape)]
+        if rng.random() < 0.3:
+            shapes[1] = shapes[0]
+        with_w = rng.random() < 0.2
+        if with_w:
+            shapes = [shapes[0]] * nshape
+        mh, mw = min(s[0] for s in shapes), min(s[1] for s in shapes)
+        k = rng.random()
+        if k < 0.5:
+            o = L.ORIGIN_STRINGS[rng.integers(len(L.ORIGIN_STRINGS))]
+        elif k < 0.8:
+            o = (int(rng.integers(mh)), int(rng.integers(mw)))
+        else:
+            o = (-int(rng.integers(1, mh + 1)), -int(rng.integers(1, mw + 1)))
+        rm = L.RMAX_KW[rng.integers(9)] if rng.random() < 0.7 else int(rng.integers(1, 12))
+        order = int(rng.integers(0, 5))
+        odd = bool(rng.integers(2))
+        orders, odd_r = L.orders_of(order, odd)
+        sin = bool(rng.integers(2))
+        W = rng.uniform(0.5, 2.0, shapes[0]) if with_w else None
+        kw = dict(origin=o, rmax=rm, order=order, odd=odd, use_sin=sin, method=meth, weights=W)
+        coef = [float(rng.normal()) for _ in orders]
+        images = []
+        for shp in shapes:
+            row, col = L.resolve_origin(shp, o)
+            images.append(L.model_image(shp, row, col, orders, coef, 'linear'))
+        n_eval += 1
+        distinct.add((meth, odd_r, len(orders), with_w, isinstance(o, str), len(set(shapes))))
+        bad = None
+        try:
+            with warnings.catch_warnings(), np.errstate(all='ignore'):
+                warnings.simplefilter('ignore')
+                d = Distributions(**kw)
+                for kk, IM in enumerate(images):
+                    try:
+                        got = d(IM).cos()
+                    except Exception as e:     # noqa
+                        got = type(e).__name__
+                    try:
+                        ref = Distributions(**kw)(IM).cos()
+                    except Exception as e:     # noqa
+                        ref = type(e).__name__
+                    if isinstance(got, str) or isinstance(ref, str):
+                        same = got == ref if (isinstance(got, str) and isinstance(ref, str)) else False
+                    else:
+                        same = got.shape == ref.shape and np.allclose(got, ref, rtol=1e-10, atol=1e-10, equal_nan=True)
+                    if not same:
+                        bad = (kk, IM.shape, got if isinstance(got, str) else
+                               ('max difference %.3g' % float(np.nanmax(np.abs(got - ref))) if got.shape == ref.shape else 'shape'))
+                        break
+        except Exception as e:     # noqa
+            bad = (-1, None, 'constructor raises %s' % type(e).__name__)
+        if bad:
+            params = dict(origin=origin_json(o), rmax=rm, order=order, odd=odd, use_sin=sin, method=meth,
+                          W=None if W is None else W.tolist(), images=[im.tolist() for im in images])
+            key = 'C14:object-reuse:method=%s:odd=%s:shapes=%s:weights=%s' % (
+                meth, odd_r, 'same' if len(set(shapes)) == 1 else 'different', 'array' if with_w else 'None')
+            hits.append(Hit('returns-coefficients', key,
+                            'one Distributions object (origin %r, rmax %r, order %d, odd %s, %s, use_sin %s) analysing images of '
+                            'shapes %r: result for image %d (shape %r) differs from a fresh object (%s)'
+                            % (o, rm, order, odd, meth, sin, shapes, bad[0], bad[1], bad[2]),
+                            SNIPPET_REUSE % dict(params=json.dumps(params)),
+                            dict(shapes=[list(s_) for s_ in shapes], origin=repr(o), rmax=rm, order=order, odd=odd, method=meth)))
+    return hits, n_eval, len(distinct)
+
+
+# tolerances of the 'remap' method (spline resampling to a polar grid): max |c_n - exact| for
+# |c_n| <= 2, at radii >= 5 whose normal matrix (taken from the object: C[r] = inverse) has
+# condition number <= 1000 and at least a quarter of the largest angular coverage.
+# Calibrated on the unchanged tree over 10 000 random configurations (worst errors
+# 4e-15 / 0.020 / 0.033 / 0.104 for N = 1 / N = 2 / N = 3 even / odd orders with N >= 3).
+def remap_tol(N, odd):
+    if N == 1:
+        return 1e-9
+    if N == 2:
+        return 0.08
+    if not odd:
+        return 0.15
+    return 0.35
+
+
+SNIPPET_REMAP = '''
+import json, sys, warnings
+import numpy as np
+warnings.simplefilter('ignore')
+from abel.tools.vmi import Distributions
+p = json.loads(%(params)r)
+IM = np.array(p['IM']); W = None if p['W'] is None else np.array(p['W'])
+res = Distributions(origin=tuple(p['origin']), rmax=p['rmax'], order=p['order'], odd=p['odd'], use_sin=p['use_sin'],
+                    weights=W, method='remap')(IM).cos()
+exp = np.array(p['coef'])[:, None]; radii = p['radii']
+err = float(np.abs(res[:, radii] - exp).max())
+ok = err <= p['tol']
+print("C14 'remap' recovery", 'holds' if ok else 'FAILS', 'max error', err, 'tolerance', p['tol'],
+      {k: p[k] for k in ('origin', 'rmax', 'order', 'odd', 'use_sin')}, 'shape', IM.shape)
+sys.exit(0 if ok else 1)
+'''
+
+
+def search_remap(ctx, rng, budget):
+    """Exact-model images (coefficients constant over r) through method='remap':
+    coefficients recovered to interpolation accuracy."""
+    from abel.tools.vmi import Distributions
+    hits, n_eval, distinct, n_radii = [], 0, set(), 0
+    for it in range(budget):
+        h, w = [int(v) for v in rng.integers(20, 70, 2)]
+        k = rng.random()
+        if k < 0.35:
+            row, col, oc = [0, h - 1][rng.integers(2)], [0, w - 1][rng.integers(2)], 'corner'
+        elif k < 0.6:
+            if rng.random() < 0.5:
+                row, col = [0, h - 1][rng.integers(2)], int(rng.integers(3, w - 3))
+            else:
+                row, col = int(rng.integers(3, h - 3)), [0, w - 1][rng.integers(2)]
+            oc = 'edge'
+        elif k < 0.8:
+            row, col, oc = h // 2, w // 2, 'centre'
+        else:
+            row, col, oc = int(rng.integers(h)), int(rng.integers(w)), 'inside'
+        rm = L.RMAX_KW[rng.integers(9)] if rng.random() < 0.7 else int(rng.integers(6, max(h, w)))
+        order = int(rng.integers(0, 5))
+        odd = bool(rng.integers(2))
+        orders, odd_r = L.orders_of(order, odd)
+        sin = bool(rng.integers(2))
+        wk = int(rng.integers(3))
+        W = None if wk == 0 else (np.ones((h, w)) if wk == 1 else
+                                  1 + 0.5 * np.cos(np.arange(h)[:, None] / 9.0) * np.sin(np.arange(w)[None, :] / 7.0))
+        coef = [float(rng.uniform(-1, 1)) for _ in orders]
+        coef[0] = float(rng.uniform(1, 2))
+        IM = L.model_image((h, w), row, col, orders, coef, 'linear')
+        try:
+            with warnings.catch_warnings(), np.errstate(all='ignore'):
+                warnings.simplefilter('ignore')
+                d = Distributions(origin=(row, col), rmax=rm, order=order, odd=odd, use_sin=sin, weights=W, method='remap')
+                res = d(IM).cos()
+        except Exception as e:     # noqa
+            hits.append(exc_hit((h, w, (row, col), rm, order, odd, 'remap', sin), ('Exc', type(e).__name__, str(e))))
+            continue
+        n_eval += 1
+        distinct.add((len(orders), odd_r, oc, wk, sin, rm if isinstance(rm, str) else 'int'))
+        R = d.rmax
+        if R < 6:
+            continue
+        N = len(orders)
+        valid = np.broadcast_to(d.valid, (R + 1,))
+        CC = np.broadcast_to(d.C, (R + 1,) + d.C.shape[1:])
+        with np.errstate(all='ignore'):
+            H00 = np.array([(np.linalg.inv(CC[r])[0, 0] if valid[r] and np.all(np.isfinite(CC[r]))
+                             and abs(np.linalg.det(CC[r])) > 0 else 0.0) for r in range(R + 1)])
+            cov = H00 / max(H00.max(), 1e-300)
+            radii = [r for r in range(5, R + 1) if valid[r] and cov[r] >= 0.25
+                     and (N == 1 or np.linalg.cond(CC[r]) <= 1000)]
+        if not radii:
+            continue
+        n_radii += len(radii)
+        tol = remap_tol(N, odd_r)
+        err = float(np.abs(res[:, radii] - np.array(coef)[:, None]).max())
+        if not err <= tol:
+            params = dict(IM=IM.tolist(), W=None if W is None else W.tolist(), origin=[row, col], rmax=rm, order=order,
+                          odd=odd, use_sin=sin, coef=coef, radii=[int(r) for r in radii], tol=tol)
+            key = "C14:remap:N=%d:odd=%s:origin=%s:weights=%s:use_sin=%s" % (N, odd_r, oc, ['None', 'ones', 'smooth'][wk], sin)
+            hits.append(Hit('returns-coefficients', key,
+                            "method='remap': exact-model image (shape %dx%d, origin (%d, %d) [%s], rmax %r, order %d, odd %s, use_sin %s, "
+                            "weights %s) not recovered to interpolation accuracy: max error %.3g > %.3g"
+                            % (h, w, row, col, oc, rm, order, odd, sin, ['None', 'ones', 'smooth'][wk], err, tol),
+                            SNIPPET_REMAP % dict(params=json.dumps(params)),
+                            dict(shape=[h, w], origin=[row, col], rmax=rm, order=order, odd=odd, use_sin=sin)))
+    return hits, n_eval, len(distinct), n_radii
+
+
 def search_beta(ctx, rng, budget):
     from abel.tools.vmi import anisotropy_parameter
     hits, n_eval = [], 0
@@ -512,6 +736,9 @@ def run(ctx):
     budget = (250 if ctx.quick else 2500) * (3 if broken else 1)
     hits, n_eval, n_distinct, n_radii, samples = search_model(ctx, rng, budget)
     bhits, b_eval = search_beta(ctx, rng, (150 if ctx.quick else 1500) * (3 if broken else 1))
+    uhits, u_eval, u_dist = search_reuse(ctx, rng, (200 if ctx.quick else 2000) * (3 if broken else 1))
+    mhits, m_eval, m_dist, m_radii = search_remap(ctx, rng, (400 if ctx.quick else 4000) * (3 if broken else 1))
+    hits += uhits + mhits
     seen_exc = set()
     for c, out in exc:
         h = exc_hit(c, out)
@@ -519,15 +746,20 @@ def run(ctx):
             seen_exc.add(h.key)
             hits.append(h)
     hits += bhits
-    ctx.cov.update(evaluations=n_eval + b_eval + g_n + v_n, distinct_nontrivial=n_distinct,
-                   radii_checked=n_radii,
+    ctx.cov.update(evaluations=n_eval + b_eval + u_eval + m_eval + g_n + v_n,
+                   distinct_nontrivial=n_distinct + u_dist + m_dist,
+                   radii_checked=n_radii, remap_radii_checked=m_radii, object_reuse_sequences=u_eval,
                    rule='search: exact-model images (random shape 3..33, origin tuple incl. negative / edge / corner / '
                         'location string, rmax keyword or integer, order 0..8, odd on/off, nearest/linear, use_sin '
                         'on/off, positive weights or None) compared with their coefficients at radii whose Hankel '
                         'matrix has cond <= 1e8 (tolerance (1e-9 + 1e-13 cond)(1+|c|)); a configuration is distinct by '
                         '(method, use_sin, odd, N, origin class, weights present, rmax keyword); anisotropy_parameter on '
                         'noiseless curves (beta in [-1,2] incl. the limits, A in 1e-3..1e3, three kinds of theta grid, '
-                        'zero/one/two theta_ranges, three modes)',
+                        'zero/one/two theta_ranges, three modes); object reuse: one Distributions object through 2-3 images of '
+                        'different or equal shapes (nearest/linear/remap) must agree with a fresh object per image; remap: '
+                        'exact-model images (20..69 squared, corner/edge/centre/inside origins, all rmax keywords and integers, '
+                        'order 0..4, odd on/off, weights None/ones/smooth, sin on/off) recovered to the calibrated interpolation '
+                        'tolerances 1e-9 / 0.08 / 0.15 / 0.35 at radii >= 5 with cond <= 1000 and coverage >= 1/4',
                    samples=samples, exhaustive=False)
     new, seen = 0, set()
     for h in hits:
@@ -564,7 +796,9 @@ def run(ctx):
         'C14_fit_exact_partial is end-to-end (origin, rmax, folding, bins, weights, sin, integrals, solve) for N <= 3 angular '
         'terms; for N > 3 (numpy.linalg.inv branch) the algebra is proved at pixel level over any field '
         '(C14_fit_exact_any_order) and the implementation is only swept numerically',
-        "method 'remap' (spline resampling) is not modelled: not covered",
+        "method 'remap' (spline resampling) is not modelled in Coq: swept numerically with calibrated interpolation tolerances",
+        'object reuse (one Distributions object, several image shapes) is part of the correspondence: a third of the observed '
+        'objects have analysed another image first',
         'anisotropy_parameter: only uniqueness of the least-squares minimiser is proved; the optimiser is swept',
         'Results.cos() is compared with the model only at radii whose exact Hankel determinant is non-zero and whose '
         'cancellation factor is <= 2^20; valid[] is compared where exact arithmetic determines it',
